@@ -178,6 +178,7 @@ func c17Protocol(c *ev.Ctx, r *rand.Rand, caseN int) {
 	live := map[string][]uint32{}        // peer -> live session ids in creation order
 	lives := map[string]*c17life{}       // peer/session -> lifetime model
 	key := func(p string, sid uint32) string { return fmt.Sprintf("%s/%d", p, sid) }
+	former := map[string][][3]int{} // sessions that were live (and had progressed) when their peer unregistered
 	resumedWithOthers := 0
 	resumes := map[string]int{}
 	barrierN := uint32(1000)
@@ -220,6 +221,9 @@ func c17Protocol(c *ev.Ctx, r *rand.Rand, caseN int) {
 				return
 			}
 			for _, sid := range live[p] {
+				if lf := lives[key(p, sid)]; lf != nil && lf.next > lf.start {
+					former[p] = append(former[p], [3]int{int(sid), lf.start, lf.stop})
+				}
 				delete(lives, key(p, sid))
 			}
 			live[p] = nil
@@ -246,6 +250,15 @@ func c17Protocol(c *ev.Ctx, r *rand.Rand, caseN int) {
 				stop := start + r.Intn(N-start+10)
 				if r.Intn(5) == 0 {
 					stop = start
+				}
+				if len(former[p]) > 0 && r.Intn(2) == 0 {
+					// the id of a session that lived before the peer unregistered: it must start afresh
+					f := former[p][0]
+					former[p] = former[p][1:]
+					if lives[key(p, uint32(f[0]))] == nil {
+						sid, start, stop = uint32(f[0]), f[1], f[2]
+						c.Count("old_session_ids_reused_after_unregister", 1)
+					}
 				}
 				lf = &c17life{start: start, stop: stop, next: start}
 			}
